@@ -296,7 +296,7 @@ def do_check(pid, mod, args, seed, scratch):
                 }
                 for r in results
             ],
-            "samples": [s for r in results for s in (r.get("samples") or [])[:2]][:60] or [{"note": "no path completed"}],
+            "samples": [dict(s, shard=r["name"]) for r in results for s in (r.get("samples") or [])[:2]][:60] or [{"note": "no path completed"}],
             "trusted_base": ["CrossHair 0.0.110 core", "z3 (wheel)", "sx/models.py supplement (self-tested)", "stubs listed under 'stubs'", "CPython 3.12"],
         },
         "assumptions": getattr(mod, "ASSUMPTIONS", []),
